@@ -366,6 +366,133 @@ class SymReader:
     return label in self.kt.args
 
 
+def _uf(name, nreal, nint):
+  return z3.Function(name, *([R] * nreal + [z3.IntSort()] * nint + [R]))
+
+
+def sym_jac(isanc, root, point, c, w):
+  """CONTRACT of support.jac_dof used inside the row builders (its definition is decided by C22): zero for a dof that is
+  not an ancestor of the body, otherwise a function of (point, root body of the kinematic tree, dof, world) only"""
+  anc = ne(isanc, 0)
+  p = [core.to_z3(x, "real") for x in point]
+  jp = [ite(anc, _uf(f"JACP{i}", 3, 3)(*p, core.to_z3(root, "int"), core.to_z3(c, "int"), core.to_z3(w, "int")), 0.0) for i in range(3)]
+  jr = [ite(anc, _uf(f"JACR{i}", 0, 2)(core.to_z3(c, "int"), core.to_z3(w, "int")), 0.0) for i in range(3)]
+  return jp, jr
+
+
+def sym_jacdot(isanc, root, cvel, point, c, w):
+  """CONTRACT of support.jac_dot_dof (time derivative of the Jacobian column; its definition is outside C05/C22)"""
+  anc = ne(isanc, 0)
+  p = [core.to_z3(x, "real") for x in point]
+  cv = [core.to_z3(x, "real") for x in cvel]
+  jp = [ite(anc, _uf(f"JDOTP{i}", 9, 3)(*p, *cv, core.to_z3(root, "int"), core.to_z3(c, "int"), core.to_z3(w, "int")), 0.0) for i in range(3)]
+  jr = [ite(anc, _uf(f"JDOTR{i}", 0, 2)(core.to_z3(c, "int"), core.to_z3(w, "int")), 0.0) for i in range(3)]
+  return jp, jr
+
+
+def num_jac(R, point, body, c):
+  """mj_jac column from (cdof, subtree_com of the root, ancestor mask): the C22 reference, in floats"""
+  w = R.tid[0]
+  if not R.rd("body_isdofancestor", body, c):
+    return [0.0] * 3, [0.0] * 3
+  cd = R.rdv("cdof_in", w, c, n=6)
+  com = R.rdv("subtree_com_in", w, R.rd("body_rootid", body), n=3)
+  off = vsub(point, com)
+  return vadd(cd[3:], cross(cd[:3], off)), cd[:3]
+
+
+def reader_jac(R, point, body, c):
+  if R.sym:
+    return sym_jac(R.rd("body_isdofancestor", body, c), R.rd("body_rootid", body), point, c, R.tid[0])
+  return num_jac(R, point, body, c)
+
+
+def reader_jacdot(R, point, body, c):
+  w = R.tid[0]
+  if R.sym:
+    return sym_jacdot(R.rd("body_isdofancestor", body, c), R.rd("body_rootid", body), R.rdv("cvel_in", w, body), point, c, w)
+  if getattr(R, "mj", None) is not None:
+    import mujoco
+    import numpy as np
+
+    mjm, mjd = R.mj
+    jp, jr = np.zeros((3, mjm.nv)), np.zeros((3, mjm.nv))
+    mujoco.mj_jacDot(mjm, mjd, jp, jr, np.array(point, dtype=float), int(body))
+    return [float(x) for x in jp[:, c]], [float(x) for x in jr[:, c]]
+  return R.jacdot_real(point, body, c)
+
+
+def tree_pre(R, b, cols):
+  """model / data invariants the sparse connect & weld walks rely on, for body b (bounded instances):
+  the weld root has the same ancestor dofs, tree root and spatial velocity; dof_parentid decreases along the chain from
+  the weld root's last dof; body_isdofancestor is exactly that chain (how put_model builds it); the chain has <= U dofs"""
+  w = R.tid[0]
+  bw = R.rd("body_weldid", b)
+  pre = [eq(R.rd("body_rootid", bw), R.rd("body_rootid", b))]
+  pre += [eq(x, y) for x, y in zip(R.rdv("cvel_in", w, bw), R.rdv("cvel_in", w, b))]
+  ds = [sub(add(R.rd("body_dofadr", bw), R.rd("body_dofnum", bw)), 1)]
+  alive = [ge(ds[0], 0)]
+  nv = R.scalar("nv")
+  pre.append(lt(ds[0], nv))
+  for i in range(R.U):
+    nxt = R.rd("dof_parentid", ds[i])
+    pre.append(core.Implies(alive[i], And(lt(nxt, ds[i]), ge(nxt, -1))))
+    ds.append(nxt)
+    alive.append(And(alive[i], ge(nxt, 0)))
+  pre.append(Not(alive[R.U]))
+  for c in cols:
+    on_chain = Or(*[And(alive[i], eq(ds[i], c)) for i in range(R.U)])
+    pre.append(core.Implies(ge(c, 0), eq(ne(R.rd("body_isdofancestor", bw, c), 0), on_chain)))
+    pre.append(eq(R.rd("body_isdofancestor", bw, c), R.rd("body_isdofancestor", b, c)))
+  return pre
+
+
+mjOBJ_SITE = 6
+
+
+def expected_equality_connect(R, is_sparse=False):
+  w, t = R.tid
+  eqid = R.rd("eq_connect_adr", t)
+  o1, o2 = R.rd("eq_obj1id", eqid), R.rd("eq_obj2id", eqid)
+  is_site = eq(R.rd("eq_objtype", eqid), mjOBJ_SITE)
+  data = _mrdv(R, "eq_data", eqid, n=11)
+  b1 = ite(is_site, R.rd("site_bodyid", o1), o1)
+  b2 = ite(is_site, R.rd("site_bodyid", o2), o2)
+  p1b = vadd(R.rdv("xpos_in", w, o1, n=3), matvec(R.rdv("xmat_in", w, o1, n=9), data[0:3]))
+  p2b = vadd(R.rdv("xpos_in", w, o2, n=3), matvec(R.rdv("xmat_in", w, o2, n=9), data[3:6]))
+  s1, s2 = R.rdv("site_xpos_in", w, o1, n=3), R.rdv("site_xpos_in", w, o2, n=3)
+  pos1 = [ite(is_site, a, b) for a, b in zip(s1, p1b)]
+  pos2 = [ite(is_site, a, b) for a, b in zip(s2, p2b)]
+  cpos = vsub(pos1, pos2)
+  iw = add(_mrd(R, "body_invweight0", b1, k=0), _mrd(R, "body_invweight0", b2, k=0))
+  nv = R.scalar("nv")
+  solref, solimp = _mrdv(R, "eq_solref", eqid, n=2), _mrdv(R, "eq_solimp", eqid, n=5)
+  norm2 = dot(cpos, cpos)
+  rows = []
+  nvn = R.U if R.sym else int(nv)
+  for r in range(3):
+    row = _row(cpos[r], norm2 if R.sym else math.sqrt(max(norm2, 0.0)), iw, solref, solimp, 0.0, 0.0, EQUALITY, eqid)
+    row["pos_imp_sq"] = bool(R.sym)
+    jd = 0.0
+    for cc in range(nvn):
+      d1, _ = reader_jacdot(R, pos1, b1, cc)
+      d2, _ = reader_jacdot(R, pos2, b2, cc)
+      jd = add(jd, ite(lt(cc, nv), mul(sub(d1[r], d2[r]), R.rd("qvel_in", w, cc)), 0.0))
+    row["aref_extra"] = neg(jd)
+    rows.append(row)
+
+  def J(r, c):
+    j1, _ = reader_jac(R, pos1, b1, c)
+    j2, _ = reader_jac(R, pos2, b2, c)
+    return [(True, sub(j1[r], j2[r]))]
+
+  pre = [("site ids valid for site-type constraints", True)]
+  if R.sym and is_sparse:
+    cols = [z3.Int("c")] + list(range(R.U))
+    pre.append(("sparse walk invariants: weld root shares ancestors / tree root / cvel; dof_parentid decreases; body_isdofancestor = chain from the weld root's last dof; chains <= unroll bound", And(*(tree_pre(R, b1, cols) + tree_pre(R, b2, cols)))))
+  return {"act": ne(R.rd("eq_active_in", w, eqid), False), "counter": "ne_out", "rows": rows, "J": J, "pre": pre}
+
+
 def _mrd(R, label, *idx, k=0):
   """model field with leading nworld-or-1 dimension"""
   return R.rd(label, R.wmod(label), *idx, k=k)
@@ -405,7 +532,7 @@ def tendon_J_pre(R, tenid):
   """CSR well-formedness of the tendon row (MuJoCo model invariant): rownnz <= bound, columns strictly increasing, in [0, nv)"""
   nnz, adr = R.rd("ten_J_rownnz", tenid), R.rd("ten_J_rowadr", tenid)
   nv = R.scalar("nv")
-  pre = [ge(nnz, 0), le(nnz, R.U), ge(adr, 0)]
+  pre = [ge(nnz, 0), le(nnz, R.U), ge(adr, 0), ge(nv, 0)]
   for k in range(R.U):
     ck = R.rd("ten_J_colind", add(adr, k))
     pre.append(core.Implies(lt(k, nnz), And(ge(ck, 0), lt(ck, nv))))
@@ -415,15 +542,32 @@ def tendon_J_pre(R, tenid):
 
 
 def tendon_cases(R, tenid):
-  """complete case split of a well-formed tendon row: (number of entries, their columns)"""
+  """complete case split of a well-formed tendon row: (name, [(index term, value)...], guard)"""
   import itertools
 
   nnz, adr = R.rd("ten_J_rownnz", tenid), R.rd("ten_J_rowadr", tenid)
   out = []
   for n in range(R.U + 1):
     for cols in itertools.combinations(range(R.U), n):
-      out.append((f"{n}:{','.join(map(str, cols))}", And(eq(nnz, n), *[eq(R.rd("ten_J_colind", add(adr, i)), cols[i]) for i in range(n)])))
+      out.append((f"{n}:{','.join(map(str, cols))}", [(nnz, n)] + [(R.rd("ten_J_colind", add(adr, i)), cols[i]) for i in range(n)], True))
   return out
+
+
+def nv_cases(R, cases):
+  """additionally split on the value of nv (0..U)"""
+  nv = R.scalar("nv")
+  return [(f"{n}@nv{v}", sb + [(nv, v)], g) for n, sb, g in cases for v in range(R.U + 1) if all(val < v for t, val in sb if t is not sb[0][0] or len(sb) == 0) or True]
+
+
+def index_cases(R, terms):
+  """all assignments of the index terms to values in [0, U)"""
+  import itertools
+
+  return [("/".join(map(str, vs)), list(zip(terms, vs)), True) for vs in itertools.product(range(R.U), repeat=len(terms))]
+
+
+def cases_product(a, b, extra=True):
+  return [(f"{n1}|{n2}", s1 + s2, And(g1, g2, extra)) for n1, s1, g1 in a for n2, s2, g2 in b]
 
 
 def _row(pos_aref, pos_imp, invweight, solref, solimp, margin, frictionloss, type_, id_):
@@ -451,7 +595,10 @@ def expected_equality_joint(R):
   J = lambda r, c: [(eq(c, da1), 1.0), (And(has2, eq(c, da2)), neg(der))]
   nv = R.scalar("nv")
   pre = [("joint equality couples two different dofs", Or(Not(has2), ne(da1, da2))), ("dof addresses lie in [0, nv)", And(ge(da1, 0), lt(da1, nv), Or(Not(has2), And(ge(da2, 0), lt(da2, nv)))))]
-  return {"act": ne(R.rd("eq_active_in", w, eqid), False), "counter": "ne_out", "rows": [row], "J": J, "pre": pre}
+  cases = []
+  if R.sym:
+    cases = [(n, sb, Not(has2)) for n, sb, g in index_cases(R, [da1])] + [(n, sb, has2) for n, sb, g in index_cases(R, [da1, da2]) if sb[0][1] != sb[1][1]]
+  return {"act": ne(R.rd("eq_active_in", w, eqid), False), "counter": "ne_out", "rows": [row], "J": J, "pre": pre, "cases": cases}
 
 
 def expected_equality_tendon(R):
@@ -470,9 +617,9 @@ def expected_equality_tendon(R):
   J = lambda r, c: tendon_Jt(R, t1, c) + [(And(has2, cnd), cf) for cnd, cf in tendon_Jt(R, t2, c, neg(der))]
   pre = [("tendon Jacobian rows are well-formed CSR rows (sorted columns in [0,nv))", And(*tendon_J_pre(R, t1)))]
   pre.append(("second tendon row well-formed when present", Or(Not(has2), And(*tendon_J_pre(R, t2)))))
-  cases = [(f"single/{n1}", And(Not(has2), g1)) for n1, g1 in tendon_cases(R, t1)] if R.sym else []
+  cases = []
   if R.sym:
-    cases += [(f"pair/{n1}/{n2}", And(has2, g1, g2)) for n1, g1 in tendon_cases(R, t1) for n2, g2 in tendon_cases(R, t2)]
+    cases = nv_cases(R, [(n, sb, Not(has2)) for n, sb, g in tendon_cases(R, t1)] + cases_product(tendon_cases(R, t1), tendon_cases(R, t2), has2))
   return {"act": ne(R.rd("eq_active_in", w, eqid), False), "counter": "ne_out", "rows": [row], "J": J, "pre": pre, "cases": cases}
 
 
@@ -481,7 +628,7 @@ def expected_friction_dof(R):
   fl = _mrd(R, "dof_frictionloss", dof)
   row = _row(0.0, 0.0, _mrd(R, "dof_invweight0", dof), _mrdv(R, "dof_solref", dof, n=2), _mrdv(R, "dof_solimp", dof, n=5), 0.0, fl, FRICTION_DOF, dof)
   nv = R.scalar("nv")
-  return {"act": gt(fl, 0.0), "counter": "nf_out", "rows": [row], "J": lambda r, c: [(eq(c, dof), 1.0)], "pre": [("dof addresses lie in [0, nv)", And(ge(dof, 0), lt(dof, nv)))]}
+  return {"act": gt(fl, 0.0), "counter": "nf_out", "rows": [row], "J": lambda r, c: [(eq(c, dof), 1.0)], "pre": [("dof addresses lie in [0, nv)", And(ge(dof, 0), lt(dof, nv)))], "cases": index_cases(R, [dof]) if R.sym else []}
 
 
 def expected_friction_tendon(R):
@@ -489,7 +636,7 @@ def expected_friction_tendon(R):
   fl = _mrd(R, "tendon_frictionloss", ten)
   row = _row(0.0, 0.0, _mrd(R, "tendon_invweight0", ten), _mrdv(R, "tendon_solref_fri", ten, n=2), _mrdv(R, "tendon_solimp_fri", ten, n=5), 0.0, fl, FRICTION_TENDON, ten)
   pre = [("tendon Jacobian rows are well-formed CSR rows (sorted columns in [0,nv))", And(*tendon_J_pre(R, ten)))]
-  return {"act": gt(fl, 0.0), "counter": "nf_out", "rows": [row], "J": lambda r, c: tendon_Jt(R, ten, c), "pre": pre, "cases": tendon_cases(R, ten) if R.sym else []}
+  return {"act": gt(fl, 0.0), "counter": "nf_out", "rows": [row], "J": lambda r, c: tendon_Jt(R, ten, c), "pre": pre, "cases": nv_cases(R, tendon_cases(R, ten)) if R.sym else []}
 
 
 def _two_sided(x, lo, hi, margin):
@@ -512,7 +659,7 @@ def expected_limit_slide_hinge(R):
   pa = sub(s["dist"], margin)
   row = _row(pa, pa, _mrd(R, "dof_invweight0", dof), _mrdv(R, "jnt_solref", j, n=2), _mrdv(R, "jnt_solimp", j, n=5), margin, 0.0, LIMIT_JOINT, j)
   nv = R.scalar("nv")
-  return {"act": s["one"], "none": s["none"], "both": s["both"], "counter": "nl_out", "rows": [row], "J": lambda r, c: [(eq(c, dof), s["sign"])], "pre": [("dof addresses lie in [0, nv)", And(ge(dof, 0), lt(dof, nv)))]}
+  return {"act": s["one"], "none": s["none"], "both": s["both"], "counter": "nl_out", "rows": [row], "J": lambda r, c: [(eq(c, dof), s["sign"])], "pre": [("dof addresses lie in [0, nv)", And(ge(dof, 0), lt(dof, nv)))], "cases": index_cases(R, [dof]) if R.sym else []}
 
 
 def expected_limit_tendon(R):
@@ -524,4 +671,344 @@ def expected_limit_tendon(R):
   pa = sub(s["dist"], margin)
   row = _row(pa, pa, _mrd(R, "tendon_invweight0", ten), _mrdv(R, "tendon_solref_lim", ten, n=2), _mrdv(R, "tendon_solimp_lim", ten, n=5), margin, 0.0, LIMIT_TENDON, ten)
   pre = [("tendon Jacobian rows are well-formed CSR rows (sorted columns in [0,nv))", And(*tendon_J_pre(R, ten)))]
-  return {"act": s["one"], "none": s["none"], "both": s["both"], "counter": "nl_out", "rows": [row], "J": lambda r, c: tendon_Jt(R, ten, c, s["sign"]), "pre": pre, "cases": tendon_cases(R, ten) if R.sym else []}
+  return {"act": s["one"], "none": s["none"], "both": s["both"], "counter": "nl_out", "rows": [row], "J": lambda r, c: tendon_Jt(R, ten, c, s["sign"]), "pre": pre, "cases": nv_cases(R, tendon_cases(R, ten)) if R.sym else []}
+
+
+# ------------------------------------------------------------------------------------------- contacts
+
+CONTACT_CONSTRAINT_BIT = 1  # mujoco_warp ContactType.CONSTRAINT (contacts kept only for sensors are not constraint rows)
+
+
+def contact_ndim(elliptic, condim):
+  """rows of one contact: elliptic cone: condim; pyramidal: 1 or 2*(condim-1)"""
+  if elliptic:
+    return condim
+  return ite(eq(condim, 1), 1, mul(2, sub(condim, 1)))
+
+
+def contact_active(R, conid, flg_adhesion):
+  """a detected contact yields rows iff it is a constraint contact inside the margin (or, with adhesion, inside the gap)"""
+  in_range = lt(conid, R.rd("nacon_in", 0))
+  ctype = ne(core.arith("%", R.rd("type_in", conid), 2), 0)
+  pos = sub(R.rd("dist_in", conid), R.rd("includemargin_in", conid))
+  act = lt(pos, 0.0)
+  if flg_adhesion:
+    act = Or(act, ne(R.rd("adhesion_in", conid), 0.0))
+  return in_range, ctype, act, pos
+
+
+def expected_contact_update(R, elliptic, flg_adhesion, Drow=None):
+  """row handed to _efc_row by thread (conid, dimid).  Drow: the D written for this row (adhesion correction uses R = 1/D)."""
+  conid, dimid = R.tid
+  in_range = lt(conid, R.rd("nacon_in", 0))
+  ctype = ne(core.arith("%", R.rd("type_in", conid), 2), 0)
+  condim = R.rd("condim_in", conid)
+  ndim = contact_ndim(elliptic, condim)
+  adr = R.rd("contact_efc_address_in", conid, dimid)
+  act = And(in_range, ctype, lt(dimid, ndim), ge(adr, 0))
+  w = R.rd("worldid_in", conid)
+  wm = lambda label: core.arith("%", w, R.dim(label, 0))
+  incl = R.rd("includemargin_in", conid)
+  pos = sub(R.rd("dist_in", conid), incl)
+  g1, g2 = R.rd("geom_in", conid, k=0), R.rd("geom_in", conid, k=1)
+  b1, b2 = R.rd("geom_bodyid", g1), R.rd("geom_bodyid", g2)
+  tran = add(R.rd("body_invweight0", wm("body_invweight0"), b1, k=0), R.rd("body_invweight0", wm("body_invweight0"), b2, k=0))
+  isq = R.rd("opt_impratio_invsqrt", wm("opt_impratio_invsqrt"))
+  inv_impratio = mul(isq, isq)
+  fri = R.rdv("friction_in", conid, n=5)
+  solref = R.rdv("solref_in", conid, n=2)
+  srf = R.rdv("solreffriction_in", conid, n=2)
+  solimp = R.rdv("solimp_in", conid, n=5)
+  mu0 = fri[0]
+  if elliptic:
+    friction_row = gt(dimid, 0)
+    # friction[dimid-1] for dimid >= 2
+    muk = fri[4]
+    for k in (3, 2, 1):
+      muk = ite(eq(dimid, k + 1), fri[k], muk)
+    scale = ite(gt(dimid, 1), div(mul(mu0, mu0), mul(muk, muk)), 1.0)
+    iw = ite(friction_row, mul(mul(tran, inv_impratio), scale), tran)
+    use_srf = Or(ne(srf[0], 0.0), ne(srf[1], 0.0))
+    sr = [ite(And(friction_row, use_srf), srf[i], solref[i]) for i in range(2)]
+    pos_aref = ite(friction_row, 0.0, pos)
+    margin = ite(friction_row, 0.0, incl)  # MuJoCo: efc_pos = efc_margin = 0 on the friction rows of an elliptic contact
+    tp = ite(eq(condim, 1), CONTACT_FRICTIONLESS, CONTACT_ELLIPTIC)
+    adh_row = eq(dimid, 0)
+    nshare = 1.0
+  else:
+    friction_row = False
+    pyr = gt(condim, 1)
+    iw = ite(pyr, mul(mul(add(tran, mul(mul(mu0, mu0), tran)), mul(2.0, mul(mu0, mu0))), inv_impratio), tran)
+    sr = solref
+    pos_aref = pos
+    margin = incl
+    tp = ite(eq(condim, 1), CONTACT_FRICTIONLESS, CONTACT_PYRAMIDAL)
+    adh_row = True
+    nshare = ite(pyr, mul(2.0, sub(condim, 1)), 1.0)
+  row = _row(pos_aref, pos, iw, sr, solimp, margin, 0.0, tp, conid)
+  row["margin_mjw"] = incl
+  row["friction_row"] = friction_row
+  if flg_adhesion and Drow is not None:
+    adh = R.rd("adhesion_in", conid)
+    nshare_r = core.to_z3(nshare, "real") if is_sym(nshare) else float(nshare)
+    row["aref_extra"] = ite(And(ne(adh, 0.0), adh_row, gt(Drow, 0.0)), div(div(adh, nshare_r), Drow), 0.0)
+  else:
+    row["aref_extra"] = 0.0
+  return {"act": act, "rows": [row], "worldid": w, "efcid": adr, "vel": R.rd("efc_Jqvel_in", w, adr), "pre": []}
+
+
+# =========================================================================================== validation against mujoco
+# The expected_* functions are evaluated on the INPUT arrays of the real kernel launches of mujoco_warp.make_constraint
+# (recorded with wp.launch intercepted) and the resulting rows are compared with the rows of the `mujoco` library for
+# the same model and state.  This validates the reference + reader plumbing; it decides nothing about mujoco_warp.
+
+BUILDERS_XML = """
+<mujoco>
+ <option timestep="0.004" cone="{cone}" jacobian="{jac}"/>
+ <worldbody>
+  <geom name="floor" type="plane" size="5 5 0.1" condim="3"/>
+  <site name="ws" pos="0.2 0.1 1.4"/>
+  <body name="a" pos="0 0 1"><joint name="ja" type="ball" limited="true" range="0 0.4" margin="0.05" frictionloss="0.2"/><geom size="0.1" mass="1"/>
+   <site name="sa" pos="0.1 0 0.2" quat="0.8 0.2 0.5 0.1"/>
+   <body name="a2" pos="0.5 0 0"><geom size="0.05" mass="0.5"/><site name="sa2" pos="0 0.1 0"/>
+    <body name="a3" pos="0.2 0 0"><joint name="h1" type="hinge" axis="0 1 0" limited="true" range="-0.3 0.6" margin="0.02" frictionloss="0.1"/><geom size="0.05" mass="0.3"/></body>
+   </body>
+  </body>
+  <body name="b" pos="1 0 1"><freejoint/><geom size="0.1" mass="1"/><site name="sb" pos="0 0 0.1" quat="0.6 0.1 0.7 0.2"/></body>
+  <body name="c" pos="0 1 1"><joint name="s1" type="slide" axis="1 0 0" limited="true" range="-0.2 0.3" margin="0.01"/><joint name="h2" type="hinge" axis="0 0 1"/><geom size="0.1" mass="1"/></body>
+ </worldbody>
+ <tendon>
+  <fixed name="t1" limited="true" range="-0.1 0.25" margin="0.03" frictionloss="0.3"><joint joint="h1" coef="1.5"/><joint joint="s1" coef="-0.7"/></fixed>
+  <fixed name="t2" limited="true" range="-0.5 0.05" margin="0.01"><joint joint="h2" coef="2"/><joint joint="h1" coef="0.4"/></fixed>
+ </tendon>
+ <equality>
+  <connect body1="a2" body2="b" anchor="0.1 0.2 0.3" solref="0.03 0.8" solimp="0.85 0.97 0.01 0.4 3"/>
+  <connect site1="sa2" site2="sb"/>
+  <weld body1="a2" body2="b" relpose="0.1 0.2 0.3 0.7 0.1 0.6 0.3" torquescale="0.6" solimp="0.85 0.97 0.5 0.4 2"/>
+  <weld site1="sa" site2="sb" torquescale="1.3"/>
+  <weld body1="c" anchor="0.1 0 0.2"/>
+  <joint joint1="h1" joint2="s1" polycoef="0.1 0.5 0.3 0.2 0.1"/>
+  <joint joint1="h2" polycoef="0.2 0 0 0 0"/>
+  <joint joint1="h1" joint2="h2" active="false"/>
+  <tendon tendon1="t1" tendon2="t2" polycoef="0.05 0.4 0.3 -0.2 0.1" solref="-200 -10"/>
+  <tendon tendon1="t2" polycoef="0.1 0 0 0 0"/>
+ </equality>
+</mujoco>
+"""
+
+
+def _launch_records(mjm, mjd, nworld=1):
+  """run mujoco_warp.make_constraint on (model, state) with wp.launch intercepted -> {kernel key prefix: LaunchRecord}"""
+  import mujoco_warp as mjw
+  from wsym import selftest
+
+  m = mjw.put_model(mjm)
+  d = mjw.put_data(mjm, mjd, njmax=max(128, mjd.nefc + 16), nconmax=64)
+  mjw.kinematics(m, d)
+  mjw.com_pos(m, d)
+  mjw.camlight(m, d) if hasattr(mjw, "camlight") else None
+  mjw.tendon(m, d)
+  mjw.crb(m, d) if hasattr(mjw, "crb") else None
+  mjw.collision(m, d)
+  mjw.com_vel(m, d) if hasattr(mjw, "com_vel") else None
+  recs = selftest.record_launches(lambda: mjw.make_constraint(m, d))
+  out = {}
+  for rcd in recs:
+    if rcd.args is None:
+      continue
+    labels = [a.label for a in rcd.kernel.adj.args]
+    arrays, scal = {}, {}
+    for l, a, pre in zip(labels, rcd.args, rcd.pre):
+      if pre is not None and hasattr(pre, "shape") and getattr(pre, "ndim", 0) > 0:
+        arrays[l] = pre
+      elif pre is not None and not hasattr(a, "numpy"):
+        scal[l] = pre
+    post = {l: p for l, p in zip(labels, rcd.post) if p is not None}
+    out.setdefault(rcd.kernel.key.split("__locals__")[0].rstrip("_"), []).append({"dim": rcd.dim, "arrays": arrays, "scalars": scal, "post": post})
+  return m, d, out
+
+
+def _mj_rows(mjd, type_, id_):
+  import numpy as np
+
+  return [i for i in range(mjd.nefc) if int(mjd.efc_type[i]) == type_ and int(mjd.efc_id[i]) == id_]
+
+
+def _mj_J(mjm, mjd):
+  import mujoco
+  import numpy as np
+
+  J = np.zeros((mjd.nefc, mjm.nv))
+  if mujoco.mj_isSparse(mjm):
+    mujoco.mju_sparse2dense(J, mjd.efc_J, mjd.efc_J_rownnz, mjd.efc_J_rowadr, mjd.efc_J_colind)
+  else:
+    J[:] = mjd.efc_J.reshape(mjd.nefc, mjm.nv)
+  return J
+
+
+def compare_thread(name, exp, Rn, mjm, mjd, Jm, refsafe=True, both_ok=True):
+  """expected rows of one builder thread vs the mujoco rows of the same constraint.  -> (mismatches, rows compared)"""
+  import numpy as np
+
+  bad = []
+  if not exp["rows"]:
+    return bad, 0
+  tp, oid = int(exp["rows"][0]["type"]), int(exp["rows"][0]["id"])
+  rows = _mj_rows(mjd, tp, oid)
+  if exp.get("both"):
+    if len(rows) != 2:
+      bad.append(f"{name} id {oid}: both limits active but mujoco has {len(rows)} rows")
+    return bad, 0
+  want = len(exp["rows"]) if exp["act"] else 0
+  if len(rows) != want:
+    bad.append(f"{name} id {oid}: reference expects {want} rows, mujoco has {len(rows)}")
+    return bad, 0
+  nv = mjm.nv
+  w = Rn.tid[0]
+  for r, (i, row) in enumerate(zip(rows, exp["rows"])):
+    Jref = np.array([float(jsum(exp["J"](r, c))) for c in range(nv)])
+    vel = float(Jref @ np.asarray(Rn.a["qvel_in"][w][:nv], dtype=float))
+    full = ref_row(refsafe, float(mjm.opt.timestep), row["pos_aref"], row["pos_imp"] if not row.get("pos_imp_sq") else math.sqrt(max(row["pos_imp"], 0.0)), row["invweight"], row["solref"], row["solimp"], row["margin"], vel, row["frictionloss"], tp, oid)
+    if not np.allclose(Jref, Jm[i], rtol=1e-4, atol=1e-5):
+      bad.append(f"{name} id {oid} row {r}: J {Jref} vs mujoco {Jm[i]}")
+    extra = row.get("aref_extra", 0.0)
+    for f in ("pos", "margin", "D", "vel", "frictionloss") + (("aref",) if extra is not None else ()):
+      mv = float(getattr(mjd, "efc_" + f)[i])
+      rv_ = float(full[f]) + (float(extra) if f == "aref" else 0.0)
+      if not _close(rv_, mv, 2e-4, 2e-5):
+        bad.append(f"{name} id {oid} row {r}: {f} reference {rv_} vs mujoco {mv}")
+  return bad, len(rows)
+
+
+def validate_builders():
+  import mujoco
+  import numpy as np
+
+  bad, n = [], 0
+  states = [
+    ([0.95, 0.2, 0.2, 0.1, 0.7, 1.0, 0.1, 1.1, 0.9, 0.3, 0.2, 0.1, 0.32, 0.5], None),
+    ([0.98, 0.1, 0.1, 0.0, -0.31, 1.2, 0.0, 0.9, 1, 0, 0, 0, -0.21, -0.4], None),
+    ([1, 0, 0, 0, 0.1, 1.0, 0.1, 1.0, 0.9, 0.1, 0.2, 0.3, 0.05, 0.02], None),
+  ]
+  rng = np.random.default_rng(7)
+  for jac in ("dense", "sparse"):
+    mjm = mujoco.MjModel.from_xml_string(BUILDERS_XML.format(cone="pyramidal", jac=jac))
+    for qpos, _ in states:
+      mjd = mujoco.MjData(mjm)
+      mjd.qpos[:] = qpos
+      mjd.qvel[:] = rng.uniform(-1, 1, mjm.nv)
+      mujoco.mj_forward(mjm, mjd)
+      Jm = _mj_J(mjm, mjd)
+      m, d, recs = _launch_records(mjm, mjd)
+      for name, fn in EXPECTED.items():
+        for rec in recs.get(name, []):
+          dims = rec["dim"]
+          for t in range(dims[1] if len(dims) > 1 else 0):
+            Rn = NumReader(rec["arrays"], rec["scalars"], (0, t), U=8)
+            Rn.mj = (mjm, mjd)
+            exp = fn(Rn)
+            b, k = compare_thread(name, exp, Rn, mjm, mjd, Jm)
+            bad += b
+            n += k
+  return bad, n
+
+
+CONTACT_XML = """
+<mujoco>
+ <option cone="{cone}" impratio="{ir}" timestep="0.005" jacobian="{jac}"/>
+ <worldbody>
+  <geom type="plane" size="5 5 0.1" condim="{cd}" friction="0.7 0.02 0.003" {extra}/>
+  <body name="a" pos="0 0 {z}"><freejoint/><geom size="0.1" mass="1" condim="{cd}" friction="0.7 0.02 0.003" margin="0.02" gap="{gap}" {adh}/>
+     <body name="a2" pos="0.3 0 -0.004"><geom size="0.1" mass="0.5" condim="{cd}" friction="0.4 0.01 0.001"/></body>
+  </body>
+ </worldbody>
+</mujoco>
+"""
+
+
+def validate_contacts():
+  """expected_contact_update / contact_active / contact_ndim on the real launch inputs vs the rows of the mujoco library"""
+  import mujoco
+  import numpy as np
+
+  bad, n = [], 0
+  cfgs = []
+  for cone in ("pyramidal", "elliptic"):
+    for cd in (1, 3, 4, 6):
+      cfgs.append((cone, cd, 1, "dense", "", "", 0.0, 0.095))
+      cfgs.append((cone, cd, 4, "sparse", 'solref="-500 -20"', "", 0.005, 0.09))
+    cfgs.append((cone, 3, 2, "dense", 'solreffriction="0.05 0.6"', "", 0.0, 0.09))
+    for z in (0.09, 0.115, 0.14):
+      cfgs.append((cone, 3, 2, "dense", "", 'adhesion="3"', 0.05, z))
+      cfgs.append((cone, 1, 1, "sparse", "", 'adhesion="2"', 0.05, z))
+  for cone, cd, ir, jac, extra, adh, gap, z in cfgs:
+    xml = CONTACT_XML.format(cone=cone, cd=cd, ir=ir, jac=jac, extra=extra, adh=adh, gap=gap, z=z)
+    if "solreffriction" in extra:
+      xml = xml.replace("<worldbody>", '<contact><pair geom1="p" geom2="s" condim="3" solreffriction="0.05 0.6"/></contact><worldbody>').replace('<geom type="plane"', '<geom name="p" type="plane"').replace('<geom size="0.1" mass="1"', '<geom name="s" size="0.1" mass="1"').replace(extra, "")
+    mjm = mujoco.MjModel.from_xml_string(xml)
+    mjd = mujoco.MjData(mjm)
+    mjd.qvel[:] = [0.1, 0.2, 0.3, 0.4, 0.5, 0.6]
+    mujoco.mj_forward(mjm, mjd)
+    m, d, recs = _launch_records(mjm, mjd)
+    ell = cone == "elliptic"
+    flg = bool(adh)
+    upd = recs.get("_efc_contact_update", [])
+    ini = recs.get("_efc_contact_init", [])
+    if not upd or not ini:
+      bad.append(f"no contact kernels launched for {cone} condim {cd}")
+      continue
+    upd, ini = upd[0], ini[0]
+    nacon = int(upd["arrays"]["nacon_in"][0])
+    if nacon != mjd.ncon:
+      bad.append(f"{cone} condim {cd}: mujoco_warp has {nacon} contacts, mujoco {mjd.ncon} (validation scene)")
+      continue
+    for i in range(nacon):
+      gi = tuple(int(x) for x in upd["arrays"]["geom_in"][i])
+      js = [j for j in range(mjd.ncon) if (int(mjd.contact[j].geom1), int(mjd.contact[j].geom2)) == gi]
+      if len(js) != 1:
+        bad.append(f"cannot match contact {gi}")
+        continue
+      con = mjd.contact[js[0]]
+      Ri = NumReader(ini["arrays"], ini["scalars"], (i,), U=10)
+      in_range, ctype, act, pos = contact_active(Ri, i, flg)
+      A = bool(in_range and ctype and act)
+      if A != (con.efc_address >= 0):
+        bad.append(f"{cone} condim {cd} z {z}: contact {gi} active in reference = {A}, mujoco efc_address = {con.efc_address}")
+        continue
+      if not A:
+        continue
+      ndim = int(contact_ndim(ell, int(Ri.rd("condim_in", i))))
+      mjrows = [r for r in range(mjd.nefc) if int(mjd.efc_id[r]) == js[0] and int(mjd.efc_type[r]) >= CONTACT_FRICTIONLESS]
+      if len(mjrows) != ndim:
+        bad.append(f"{cone} condim {cd}: reference ndim {ndim}, mujoco rows {len(mjrows)}")
+        continue
+      for dimid in range(ndim):
+        Ru = NumReader(upd["arrays"], upd["scalars"], (i, dimid), U=10)
+        exp = expected_contact_update(Ru, ell, flg, Drow=None)
+        r = mjrows[dimid]
+        if not exp["act"]:
+          bad.append(f"{cone} condim {cd} dim {dimid}: reference inactive")
+          continue
+        row = exp["rows"][0]
+        full = ref_row(True, float(mjm.opt.timestep), row["pos_aref"], row["pos_imp"], row["invweight"], row["solref"], row["solimp"], row["margin"], float(mjd.efc_vel[r]), 0.0, row["type"], row["id"])
+        if flg:
+          full["aref"] += expected_contact_update(Ru, ell, flg, Drow=full["D"])["rows"][0]["aref_extra"]
+        n += 1
+        if int(row["type"]) != int(mjd.efc_type[r]):
+          bad.append(f"{cone} condim {cd} dim {dimid}: type {row['type']} vs mujoco {mjd.efc_type[r]}")
+        for f in ("pos", "margin", "D", "aref"):
+          mv = float(getattr(mjd, "efc_" + f)[r])
+          if not _close(float(full[f]), mv, 3e-4, 3e-5):
+            bad.append(f"{cone} condim {cd} ir {ir} {extra}{adh} z {z} dim {dimid}: {f} reference {full[f]} vs mujoco {mv}")
+  return bad, n
+
+
+EXPECTED = {
+  "_equality_connect": expected_equality_connect,
+  "_equality_joint": expected_equality_joint,
+  "_equality_tendon": expected_equality_tendon,
+  "_friction_dof": expected_friction_dof,
+  "_friction_tendon": expected_friction_tendon,
+  "_limit_slide_hinge": expected_limit_slide_hinge,
+  "_limit_tendon": expected_limit_tendon,
+}
